@@ -4936,6 +4936,12 @@ func linkedFromRegistrationTxn(tx ReadTxn, ws memdb.WatchSet, service structs.Se
 // updateMeshTopology creates associations between the input service and its upstreams in the topology table
 func updateMeshTopology(tx WriteTxn, idx uint64, node string, svc *structs.NodeService, existing interface{}) error {
 	// TODO(peering): make this peering aware
+	// Until then imported instances stay out of the table, like in cleanupMeshTopology: its
+	// key has no peer name, so their rows would mix with (and never be removed from) the
+	// topology of local services of the same names.
+	if svc.PeerName != "" {
+		return nil
+	}
 	oldUpstreams := make(map[structs.ServiceName]bool)
 	if e, ok := existing.(*structs.ServiceNode); ok {
 		for _, u := range e.ServiceProxy.Upstreams {
